@@ -63,7 +63,7 @@ def replay_cases(cases, timeout=600):
     with open(fin, "w") as f:
         json.dump(cases, f)
     env = dict(os.environ)
-    env["PYTHONPATH"] = "/repo:" + VERIF
+    env["PYTHONPATH"] = os.environ.get("VERIF_REPO", "/repo") + ":" + VERIF
     env["PYTHONDONTWRITEBYTECODE"] = "1"
     env.pop("SELFIES_VERIF", None)
     try:
